@@ -75,6 +75,14 @@ def _stores(func) -> Dict[str, list]:
                 if isinstance(t, ast.Name):
                     names.setdefault(t.id, []).append(
                         n.value if len(n.targets) == 1 else None)
+                elif isinstance(t, (ast.Tuple, ast.List)) and \
+                        len(n.targets) == 1 and all(
+                            isinstance(x, ast.Name) for x in t.elts) and \
+                        isinstance(n.value, ast.Call):
+                    # a, b = helper(...): element i of the helper's result
+                    for i, x in enumerate(t.elts):
+                        names.setdefault(x.id, []).append(
+                            ('elt', n.value, i, len(t.elts)))
                 else:
                     for x in ast.walk(t):
                         if isinstance(x, ast.Name) and \
@@ -120,6 +128,24 @@ def _propagated(owner: Frame, name: str):
         b = getattr(owner, 'bindings', {}).get(name)
         if b is not None:
             return b
+        return None
+    if len(stores) == 1 and isinstance(stores[0], tuple):
+        # element of the tuple an inlined helper returns
+        _, call, i, n_el = stores[0]
+        kids = [c for c in getattr(owner, 'children', ()) if c.call is call]
+        if len(kids) == 1:
+            callee = kids[0]
+            rets = [r for r in walk_own(callee.ctx.func.node)
+                    if isinstance(r, ast.Return)]
+            if len(rets) == 1 and isinstance(rets[0].value, ast.Tuple) and \
+                    len(rets[0].value.elts) == n_el:
+                el = rets[0].value.elts[i]
+                x = el
+                while isinstance(x, ast.Attribute):
+                    x = x.value
+                if isinstance(el, (ast.Name, ast.Attribute)) and \
+                        isinstance(x, ast.Name):
+                    return el, callee
         return None
     if len(stores) == 1 and stores[0] is not None:
         v = stores[0]
